@@ -250,4 +250,708 @@ theorem fmadd (E : Env) : Lanewise3 8 (xlanes 64) E.F.fma64 (Avx512_f64.inst E).
   lanewise3_of_map3 (by decide) (by decide) (by decide) _ _ (fun _ _ _ => rfl) _ rfl
 end Avx512_f64
 
+/-! ## 4. AVX2 64-bit max / min (`cmpgt_epi64` + `blendv_epi8`; unsigned: sign bits flipped first) -/
+
+namespace Avx2_i64
+theorem max_dense_eq (E : Env) : (Avx2_i64.inst E).max_dense = applyDense2 (Avx2_i64.inst E).max := rfl
+theorem min_dense_eq (E : Env) : (Avx2_i64.inst E).min_dense = applyDense2 (Avx2_i64.inst E).min := rfl
+
+theorem max_single (E : Env) (x y : BitVec 256) :
+    ∃ r, (Avx2_i64.inst E).max x y = pure r ∧ ∀ k, k < 4 → xlanes 64 r k = IntPrim.smax (xlanes 64 x k) (xlanes 64 y k) :=
+  ⟨_, rfl, fun k hk => smax64_lane 4 (by decide) x y k hk⟩
+
+theorem min_single (E : Env) (x y : BitVec 256) :
+    ∃ r, (Avx2_i64.inst E).min x y = pure r ∧ ∀ k, k < 4 → xlanes 64 r k = IntPrim.smin (xlanes 64 x k) (xlanes 64 y k) :=
+  ⟨_, rfl, fun k hk => smin64_lane 4 (by decide) x y k hk⟩
+
+/-- **AVX2 `i64` max**: lane-wise `Ord::max`, single and dense form -/
+theorem max (E : Env) : Lanewise2 4 (xlanes 64) (sintSpec 64).cmpMax (fun _ => True)
+    (Avx2_i64.inst E).max (Avx2_i64.inst E).max_dense := by
+  rw [max_dense_eq]
+  exact lanewise2_of_applyDense (by decide) (fun x y _ => max_single E x y)
+
+/-- **AVX2 `i64` min**: lane-wise `Ord::min`, single and dense form -/
+theorem min (E : Env) : Lanewise2 4 (xlanes 64) (sintSpec 64).cmpMin (fun _ => True)
+    (Avx2_i64.inst E).min (Avx2_i64.inst E).min_dense := by
+  rw [min_dense_eq]
+  exact lanewise2_of_applyDense (by decide) (fun x y _ => min_single E x y)
+end Avx2_i64
+
+namespace Avx2_u64
+theorem max_dense_eq (E : Env) : (Avx2_u64.inst E).max_dense = applyDense2 (Avx2_u64.inst E).max := rfl
+theorem min_dense_eq (E : Env) : (Avx2_u64.inst E).min_dense = applyDense2 (Avx2_u64.inst E).min := rfl
+
+theorem max_single (E : Env) (x y : BitVec 256) :
+    ∃ r, (Avx2_u64.inst E).max x y = pure r ∧ ∀ k, k < 4 → xlanes 64 r k = IntPrim.umax (xlanes 64 x k) (xlanes 64 y k) :=
+  ⟨_, rfl, fun k hk => umax64_lane 4 (by decide) x y k hk⟩
+
+theorem min_single (E : Env) (x y : BitVec 256) :
+    ∃ r, (Avx2_u64.inst E).min x y = pure r ∧ ∀ k, k < 4 → xlanes 64 r k = IntPrim.umin (xlanes 64 x k) (xlanes 64 y k) :=
+  ⟨_, rfl, fun k hk => umin64_lane 4 (by decide) x y k hk⟩
+
+/-- **AVX2 `u64` max**: lane-wise `Ord::max`, single and dense form -/
+theorem max (E : Env) : Lanewise2 4 (xlanes 64) (uintSpec 64).cmpMax (fun _ => True)
+    (Avx2_u64.inst E).max (Avx2_u64.inst E).max_dense := by
+  rw [max_dense_eq]
+  exact lanewise2_of_applyDense (by decide) (fun x y _ => max_single E x y)
+
+/-- **AVX2 `u64` min**: lane-wise `Ord::min`, single and dense form -/
+theorem min (E : Env) : Lanewise2 4 (xlanes 64) (uintSpec 64).cmpMin (fun _ => True)
+    (Avx2_u64.inst E).min (Avx2_u64.inst E).min_dense := by
+  rw [min_dense_eq]
+  exact lanewise2_of_applyDense (by decide) (fun x y _ => min_single E x y)
+end Avx2_u64
+
+/-! ## 5. AVX2 64-bit multiply (32-bit partial products) -/
+
+/-- `_MM_SHUFFLE(2, 3, 0, 1)` -/
+theorem shuffle_2301 (E : Env) :
+    I32.toNat (_MM_SHUFFLE E (U32.lit 2) (U32.lit 3) (U32.lit 0) (U32.lit 1)) = 177 := by
+  simp [_MM_SHUFFLE]
+
+namespace Avx2_i64
+
+/-- the generated `mul` is the pure partial-product network -/
+theorem mul_eq (E : Env) (x y : BitVec 256) :
+    (Avx2_i64.inst E).mul x y = pure (mul64Net256 E 177 x y) := by
+  rw [← shuffle_2301 E]
+  rfl
+
+/-- the overridden `mul_dense` is the same network applied to the eight fields -/
+theorem mul_dense_eq (E : Env) : (Avx2_i64.inst E).mul_dense = applyDense2 (Avx2_i64.inst E).mul := rfl
+
+theorem mul_single (E : Env) (x y : BitVec 256) :
+    ∃ r, (Avx2_i64.inst E).mul x y = pure r ∧ ∀ k, k < 4 → xlanes 64 r k = xlanes 64 x k * xlanes 64 y k :=
+  ⟨_, mul_eq E x y, fun k hk => mul64Net256_lane E x y k hk⟩
+
+/-- **AVX2 `i64` multiply** (`mul_epu32` + swapped `mullo_epi32` cross products): lane-wise the wrapping
+64-bit product, single and dense form -/
+theorem mul (E : Env) : Lanewise2 4 (xlanes 64) (sintSpec 64).mul (fun _ => True)
+    (Avx2_i64.inst E).mul (Avx2_i64.inst E).mul_dense := by
+  rw [mul_dense_eq]
+  exact lanewise2_of_applyDense (by decide) (fun x y _ => mul_single E x y)
+
+/-- `Avx2_i64.fmadd` / `fmadd_dense` = `mul` then `add` -/
+theorem fmadd (E : Env) : Lanewise3 4 (xlanes 64) (fun x y acc => (sintSpec 64).add ((sintSpec 64).mul x y) acc)
+    (Avx2_i64.inst E).fmadd (Avx2_i64.inst E).fmadd_dense :=
+  lanewise3_of_mul_add (mul E) (C13X86.Avx2_i64.add E) (fun _ _ _ => rfl) (fun _ _ _ => rfl)
+
+end Avx2_i64
+
+namespace Avx2_u64
+
+theorem mul_eq (E : Env) (x y : BitVec 256) : (Avx2_u64.inst E).mul x y = (Avx2_i64.inst E).mul x y := rfl
+theorem mul_dense_eq (E : Env) : (Avx2_u64.inst E).mul_dense = applyDense2 (Avx2_u64.inst E).mul := rfl
+
+theorem mul_single (E : Env) (x y : BitVec 256) :
+    ∃ r, (Avx2_u64.inst E).mul x y = pure r ∧ ∀ k, k < 4 → xlanes 64 r k = xlanes 64 x k * xlanes 64 y k :=
+  Avx2_i64.mul_single E x y
+
+/-- **AVX2 `u64` multiply** (delegates to `i64`): lane-wise the wrapping 64-bit product -/
+theorem mul (E : Env) : Lanewise2 4 (xlanes 64) (uintSpec 64).mul (fun _ => True)
+    (Avx2_u64.inst E).mul (Avx2_u64.inst E).mul_dense := by
+  rw [mul_dense_eq]
+  exact lanewise2_of_applyDense (by decide) (fun x y _ => mul_single E x y)
+
+/-- `Avx2_u64.fmadd` / `fmadd_dense` = `mul` then `add` -/
+theorem fmadd (E : Env) : Lanewise3 4 (xlanes 64) (fun x y acc => (uintSpec 64).add ((uintSpec 64).mul x y) acc)
+    (Avx2_u64.inst E).fmadd (Avx2_u64.inst E).fmadd_dense :=
+  lanewise3_of_mul_add (mul E) (C13X86.Avx2_u64.add E) (fun _ _ _ => rfl) (fun _ _ _ => rfl)
+
+end Avx2_u64
+
+/-! ## 3. horizontal folds of the integer types
+
+For every backend × integer type and each of sum / max / min: `*_to_value r = pure (h (xlanes w r))` for the
+explicit fold `h` the code computes (`hfoldHalf4` = halves combined then four interleaved accumulators,
+`hfoldHalfQ` / `hfoldHalfD` = halves combined then a pairwise tree, `hfoldHalf512` = 256-bit halves first,
+`X86.reduceOrdered` = the AVX-512 reduce intrinsics); `h f = sumR op e f L` in the commutative monoid
+`(op, e)`; and the `FoldFaithful` record (roll-up of a dense lane + horizontal fold). The 8/16-bit folds run
+a scalar `while` loop of 4 (resp. 2) iterations and therefore need `5 ≤ E.fuel` (resp. `3 ≤ E.fuel`). -/
+
+/-- `_MM_SHUFFLE(1, 0, 3, 2)` -/
+theorem shuffle_1032 (E : Env) :
+    I32.toNat (_MM_SHUFFLE E (U32.lit 1) (U32.lit 0) (U32.lit 3) (U32.lit 2)) = 78 := by
+  simp [_MM_SHUFFLE]
+
+namespace Avx2_i8
+/-- `Avx2_i8.sum_to_value`: halves combined lane-wise, then the 4-accumulator scalar loop -/
+theorem sum_to_value (E : Env) (hfuel : 5 ≤ E.fuel) (r : BitVec 256) :
+    (Avx2_i8.inst E).sum_to_value r = pure (hfoldHalf4 (· + ·) (0 : BitVec 8) 16 4 (xlanes 8 r)) :=
+  avx2_fold4 (by decide) 4 (by decide) (· + ·) (0 : BitVec 8) E.fuel (by omega) r
+/-- … which, `((· + ·), (0 : BitVec 8))` being a commutative monoid, is the fold of all 32 lanes -/
+theorem hsum_eq (f : Nat → BitVec 8) : hfoldHalf4 (· + ·) (0 : BitVec 8) 16 4 f = sumR (· + ·) (0 : BitVec 8) f 32 :=
+  hfoldHalf4_eq_sumR (add_monoid 8) 4 f
+/-- the `FoldFaithful` record of `sum_to_register` / `sum_to_value` -/
+theorem sumFold (E : Env) (hfuel : 5 ≤ E.fuel) : FoldFaithful 32 (xlanes 8) (sintSpec 8).add (hfoldHalf4 (· + ·) (0 : BitVec 8) 16 4)
+    (Avx2_i8.inst E).sum_to_register (Avx2_i8.inst E).sum_to_value :=
+  foldFaithful_of (C13X86.Avx2_i8.add E) _ _ _ rfl (sum_to_value E hfuel)
+/-- `Avx2_i8.max_to_value`: halves combined lane-wise, then the 4-accumulator scalar loop -/
+theorem max_to_value (E : Env) (hfuel : 5 ≤ E.fuel) (r : BitVec 256) :
+    (Avx2_i8.inst E).max_to_value r = pure (hfoldHalf4 IntPrim.smax (BitVec.intMin 8) 16 4 (xlanes 8 r)) :=
+  avx2_fold4 (by decide) 4 (by decide) IntPrim.smax (BitVec.intMin 8) E.fuel (by omega) r
+/-- … which, `(IntPrim.smax, (BitVec.intMin 8))` being a commutative monoid, is the fold of all 32 lanes -/
+theorem hmax_eq (f : Nat → BitVec 8) : hfoldHalf4 IntPrim.smax (BitVec.intMin 8) 16 4 f = sumR IntPrim.smax (BitVec.intMin 8) f 32 :=
+  hfoldHalf4_eq_sumR (smax_monoid (by decide : 0 < 8)) 4 f
+/-- the `FoldFaithful` record of `max_to_register` / `max_to_value` -/
+theorem maxFold (E : Env) (hfuel : 5 ≤ E.fuel) : FoldFaithful 32 (xlanes 8) (sintSpec 8).cmpMax (hfoldHalf4 IntPrim.smax (BitVec.intMin 8) 16 4)
+    (Avx2_i8.inst E).max_to_register (Avx2_i8.inst E).max_to_value :=
+  foldFaithful_of (C13X86.Avx2_i8.max E) _ _ _ rfl (max_to_value E hfuel)
+/-- `Avx2_i8.min_to_value`: halves combined lane-wise, then the 4-accumulator scalar loop -/
+theorem min_to_value (E : Env) (hfuel : 5 ≤ E.fuel) (r : BitVec 256) :
+    (Avx2_i8.inst E).min_to_value r = pure (hfoldHalf4 IntPrim.smin (BitVec.intMax 8) 16 4 (xlanes 8 r)) :=
+  avx2_fold4 (by decide) 4 (by decide) IntPrim.smin (BitVec.intMax 8) E.fuel (by omega) r
+/-- … which, `(IntPrim.smin, (BitVec.intMax 8))` being a commutative monoid, is the fold of all 32 lanes -/
+theorem hmin_eq (f : Nat → BitVec 8) : hfoldHalf4 IntPrim.smin (BitVec.intMax 8) 16 4 f = sumR IntPrim.smin (BitVec.intMax 8) f 32 :=
+  hfoldHalf4_eq_sumR (smin_monoid (by decide : 0 < 8)) 4 f
+/-- the `FoldFaithful` record of `min_to_register` / `min_to_value` -/
+theorem minFold (E : Env) (hfuel : 5 ≤ E.fuel) : FoldFaithful 32 (xlanes 8) (sintSpec 8).cmpMin (hfoldHalf4 IntPrim.smin (BitVec.intMax 8) 16 4)
+    (Avx2_i8.inst E).min_to_register (Avx2_i8.inst E).min_to_value :=
+  foldFaithful_of (C13X86.Avx2_i8.min E) _ _ _ rfl (min_to_value E hfuel)
+end Avx2_i8
+
+namespace Avx2_i16
+/-- `Avx2_i16.sum_to_value`: halves combined lane-wise, then the 4-accumulator scalar loop -/
+theorem sum_to_value (E : Env) (hfuel : 3 ≤ E.fuel) (r : BitVec 256) :
+    (Avx2_i16.inst E).sum_to_value r = pure (hfoldHalf4 (· + ·) (0 : BitVec 16) 8 2 (xlanes 16 r)) :=
+  avx2_fold4 (by decide) 2 (by decide) (· + ·) (0 : BitVec 16) E.fuel (by omega) r
+/-- … which, `((· + ·), (0 : BitVec 16))` being a commutative monoid, is the fold of all 16 lanes -/
+theorem hsum_eq (f : Nat → BitVec 16) : hfoldHalf4 (· + ·) (0 : BitVec 16) 8 2 f = sumR (· + ·) (0 : BitVec 16) f 16 :=
+  hfoldHalf4_eq_sumR (add_monoid 16) 2 f
+/-- the `FoldFaithful` record of `sum_to_register` / `sum_to_value` -/
+theorem sumFold (E : Env) (hfuel : 3 ≤ E.fuel) : FoldFaithful 16 (xlanes 16) (sintSpec 16).add (hfoldHalf4 (· + ·) (0 : BitVec 16) 8 2)
+    (Avx2_i16.inst E).sum_to_register (Avx2_i16.inst E).sum_to_value :=
+  foldFaithful_of (C13X86.Avx2_i16.add E) _ _ _ rfl (sum_to_value E hfuel)
+/-- `Avx2_i16.max_to_value`: halves combined lane-wise, then the 4-accumulator scalar loop -/
+theorem max_to_value (E : Env) (hfuel : 3 ≤ E.fuel) (r : BitVec 256) :
+    (Avx2_i16.inst E).max_to_value r = pure (hfoldHalf4 IntPrim.smax (BitVec.intMin 16) 8 2 (xlanes 16 r)) :=
+  avx2_fold4 (by decide) 2 (by decide) IntPrim.smax (BitVec.intMin 16) E.fuel (by omega) r
+/-- … which, `(IntPrim.smax, (BitVec.intMin 16))` being a commutative monoid, is the fold of all 16 lanes -/
+theorem hmax_eq (f : Nat → BitVec 16) : hfoldHalf4 IntPrim.smax (BitVec.intMin 16) 8 2 f = sumR IntPrim.smax (BitVec.intMin 16) f 16 :=
+  hfoldHalf4_eq_sumR (smax_monoid (by decide : 0 < 16)) 2 f
+/-- the `FoldFaithful` record of `max_to_register` / `max_to_value` -/
+theorem maxFold (E : Env) (hfuel : 3 ≤ E.fuel) : FoldFaithful 16 (xlanes 16) (sintSpec 16).cmpMax (hfoldHalf4 IntPrim.smax (BitVec.intMin 16) 8 2)
+    (Avx2_i16.inst E).max_to_register (Avx2_i16.inst E).max_to_value :=
+  foldFaithful_of (C13X86.Avx2_i16.max E) _ _ _ rfl (max_to_value E hfuel)
+/-- `Avx2_i16.min_to_value`: halves combined lane-wise, then the 4-accumulator scalar loop -/
+theorem min_to_value (E : Env) (hfuel : 3 ≤ E.fuel) (r : BitVec 256) :
+    (Avx2_i16.inst E).min_to_value r = pure (hfoldHalf4 IntPrim.smin (BitVec.intMax 16) 8 2 (xlanes 16 r)) :=
+  avx2_fold4 (by decide) 2 (by decide) IntPrim.smin (BitVec.intMax 16) E.fuel (by omega) r
+/-- … which, `(IntPrim.smin, (BitVec.intMax 16))` being a commutative monoid, is the fold of all 16 lanes -/
+theorem hmin_eq (f : Nat → BitVec 16) : hfoldHalf4 IntPrim.smin (BitVec.intMax 16) 8 2 f = sumR IntPrim.smin (BitVec.intMax 16) f 16 :=
+  hfoldHalf4_eq_sumR (smin_monoid (by decide : 0 < 16)) 2 f
+/-- the `FoldFaithful` record of `min_to_register` / `min_to_value` -/
+theorem minFold (E : Env) (hfuel : 3 ≤ E.fuel) : FoldFaithful 16 (xlanes 16) (sintSpec 16).cmpMin (hfoldHalf4 IntPrim.smin (BitVec.intMax 16) 8 2)
+    (Avx2_i16.inst E).min_to_register (Avx2_i16.inst E).min_to_value :=
+  foldFaithful_of (C13X86.Avx2_i16.min E) _ _ _ rfl (min_to_value E hfuel)
+end Avx2_i16
+
+namespace Avx2_i32
+/-- `Avx2_i32.sum_to_value`: halves combined lane-wise, then `(g0 ⊕ g1) ⊕ (g2 ⊕ g3)` -/
+theorem sum_to_value (E : Env) (r : BitVec 256) :
+    (Avx2_i32.inst E).sum_to_value r = pure (hfoldHalfQ (· + ·) (xlanes 32 r)) :=
+  congrArg pure (avx2_foldQ (· + ·) r)
+/-- … which, `((· + ·), (0 : BitVec 32))` being a commutative monoid, is the fold of all 8 lanes -/
+theorem hsum_eq (f : Nat → BitVec 32) : hfoldHalfQ (· + ·) f = sumR (· + ·) (0 : BitVec 32) f 8 :=
+  hfoldHalfQ_eq_sumR (add_monoid 32) f
+/-- the `FoldFaithful` record of `sum_to_register` / `sum_to_value` -/
+theorem sumFold (E : Env) : FoldFaithful 8 (xlanes 32) (sintSpec 32).add (hfoldHalfQ (· + ·))
+    (Avx2_i32.inst E).sum_to_register (Avx2_i32.inst E).sum_to_value :=
+  foldFaithful_of (C13X86.Avx2_i32.add E) _ _ _ rfl (sum_to_value E)
+/-- `Avx2_i32.max_to_value`: halves combined lane-wise, then `(g0 ⊕ g1) ⊕ (g2 ⊕ g3)` -/
+theorem max_to_value (E : Env) (r : BitVec 256) :
+    (Avx2_i32.inst E).max_to_value r = pure (hfoldHalfQ IntPrim.smax (xlanes 32 r)) :=
+  congrArg pure (avx2_foldQ IntPrim.smax r)
+/-- … which, `(IntPrim.smax, (BitVec.intMin 32))` being a commutative monoid, is the fold of all 8 lanes -/
+theorem hmax_eq (f : Nat → BitVec 32) : hfoldHalfQ IntPrim.smax f = sumR IntPrim.smax (BitVec.intMin 32) f 8 :=
+  hfoldHalfQ_eq_sumR (smax_monoid (by decide : 0 < 32)) f
+/-- the `FoldFaithful` record of `max_to_register` / `max_to_value` -/
+theorem maxFold (E : Env) : FoldFaithful 8 (xlanes 32) (sintSpec 32).cmpMax (hfoldHalfQ IntPrim.smax)
+    (Avx2_i32.inst E).max_to_register (Avx2_i32.inst E).max_to_value :=
+  foldFaithful_of (C13X86.Avx2_i32.max E) _ _ _ rfl (max_to_value E)
+/-- `Avx2_i32.min_to_value`: halves combined lane-wise, then `(g0 ⊕ g1) ⊕ (g2 ⊕ g3)` -/
+theorem min_to_value (E : Env) (r : BitVec 256) :
+    (Avx2_i32.inst E).min_to_value r = pure (hfoldHalfQ IntPrim.smin (xlanes 32 r)) :=
+  congrArg pure (avx2_foldQ IntPrim.smin r)
+/-- … which, `(IntPrim.smin, (BitVec.intMax 32))` being a commutative monoid, is the fold of all 8 lanes -/
+theorem hmin_eq (f : Nat → BitVec 32) : hfoldHalfQ IntPrim.smin f = sumR IntPrim.smin (BitVec.intMax 32) f 8 :=
+  hfoldHalfQ_eq_sumR (smin_monoid (by decide : 0 < 32)) f
+/-- the `FoldFaithful` record of `min_to_register` / `min_to_value` -/
+theorem minFold (E : Env) : FoldFaithful 8 (xlanes 32) (sintSpec 32).cmpMin (hfoldHalfQ IntPrim.smin)
+    (Avx2_i32.inst E).min_to_register (Avx2_i32.inst E).min_to_value :=
+  foldFaithful_of (C13X86.Avx2_i32.min E) _ _ _ rfl (min_to_value E)
+end Avx2_i32
+
+namespace Avx2_i64
+/-- `Avx2_i64.sum_to_value`: halves combined lane-wise, then `g0 ⊕ g1` -/
+theorem sum_to_value (E : Env) (r : BitVec 256) :
+    (Avx2_i64.inst E).sum_to_value r = pure (hfoldHalfD (· + ·) (xlanes 64 r)) :=
+  congrArg pure (avx2_foldD (· + ·) r)
+/-- … which, `((· + ·), (0 : BitVec 64))` being a commutative monoid, is the fold of all 4 lanes -/
+theorem hsum_eq (f : Nat → BitVec 64) : hfoldHalfD (· + ·) f = sumR (· + ·) (0 : BitVec 64) f 4 :=
+  hfoldHalfD_eq_sumR (add_monoid 64) f
+/-- the `FoldFaithful` record of `sum_to_register` / `sum_to_value` -/
+theorem sumFold (E : Env) : FoldFaithful 4 (xlanes 64) (sintSpec 64).add (hfoldHalfD (· + ·))
+    (Avx2_i64.inst E).sum_to_register (Avx2_i64.inst E).sum_to_value :=
+  foldFaithful_of (C13X86.Avx2_i64.add E) _ _ _ rfl (sum_to_value E)
+/-- `Avx2_i64.max_to_value`: halves combined with `cmpgt_epi64` + `blendv_epi8`, then the scalar combine -/
+theorem max_to_value (E : Env) (r : BitVec 256) :
+    (Avx2_i64.inst E).max_to_value r = pure (hfoldHalfD IntPrim.smax (xlanes 64 r)) :=
+  congrArg pure (avx2_smaxD r)
+/-- … which, `(IntPrim.smax, (BitVec.intMin 64))` being a commutative monoid, is the fold of all 4 lanes -/
+theorem hmax_eq (f : Nat → BitVec 64) : hfoldHalfD IntPrim.smax f = sumR IntPrim.smax (BitVec.intMin 64) f 4 :=
+  hfoldHalfD_eq_sumR (smax_monoid (by decide : 0 < 64)) f
+/-- the `FoldFaithful` record of `max_to_register` / `max_to_value` -/
+theorem maxFold (E : Env) : FoldFaithful 4 (xlanes 64) (sintSpec 64).cmpMax (hfoldHalfD IntPrim.smax)
+    (Avx2_i64.inst E).max_to_register (Avx2_i64.inst E).max_to_value :=
+  foldFaithful_of (C13X86Hard.Avx2_i64.max E) _ _ _ rfl (max_to_value E)
+/-- `Avx2_i64.min_to_value`: halves combined with `cmpgt_epi64` + `blendv_epi8`, then the scalar combine -/
+theorem min_to_value (E : Env) (r : BitVec 256) :
+    (Avx2_i64.inst E).min_to_value r = pure (hfoldHalfD IntPrim.smin (xlanes 64 r)) :=
+  congrArg pure (avx2_sminD r)
+/-- … which, `(IntPrim.smin, (BitVec.intMax 64))` being a commutative monoid, is the fold of all 4 lanes -/
+theorem hmin_eq (f : Nat → BitVec 64) : hfoldHalfD IntPrim.smin f = sumR IntPrim.smin (BitVec.intMax 64) f 4 :=
+  hfoldHalfD_eq_sumR (smin_monoid (by decide : 0 < 64)) f
+/-- the `FoldFaithful` record of `min_to_register` / `min_to_value` -/
+theorem minFold (E : Env) : FoldFaithful 4 (xlanes 64) (sintSpec 64).cmpMin (hfoldHalfD IntPrim.smin)
+    (Avx2_i64.inst E).min_to_register (Avx2_i64.inst E).min_to_value :=
+  foldFaithful_of (C13X86Hard.Avx2_i64.min E) _ _ _ rfl (min_to_value E)
+end Avx2_i64
+
+namespace Avx2_u8
+/-- `Avx2_u8.sum_to_value`: halves combined lane-wise, then the 4-accumulator scalar loop -/
+theorem sum_to_value (E : Env) (hfuel : 5 ≤ E.fuel) (r : BitVec 256) :
+    (Avx2_u8.inst E).sum_to_value r = pure (hfoldHalf4 (· + ·) (0 : BitVec 8) 16 4 (xlanes 8 r)) :=
+  avx2_fold4 (by decide) 4 (by decide) (· + ·) (0 : BitVec 8) E.fuel (by omega) r
+/-- … which, `((· + ·), (0 : BitVec 8))` being a commutative monoid, is the fold of all 32 lanes -/
+theorem hsum_eq (f : Nat → BitVec 8) : hfoldHalf4 (· + ·) (0 : BitVec 8) 16 4 f = sumR (· + ·) (0 : BitVec 8) f 32 :=
+  hfoldHalf4_eq_sumR (add_monoid 8) 4 f
+/-- the `FoldFaithful` record of `sum_to_register` / `sum_to_value` -/
+theorem sumFold (E : Env) (hfuel : 5 ≤ E.fuel) : FoldFaithful 32 (xlanes 8) (uintSpec 8).add (hfoldHalf4 (· + ·) (0 : BitVec 8) 16 4)
+    (Avx2_u8.inst E).sum_to_register (Avx2_u8.inst E).sum_to_value :=
+  foldFaithful_of (C13X86.Avx2_u8.add E) _ _ _ rfl (sum_to_value E hfuel)
+/-- `Avx2_u8.max_to_value`: halves combined lane-wise, then the 4-accumulator scalar loop -/
+theorem max_to_value (E : Env) (hfuel : 5 ≤ E.fuel) (r : BitVec 256) :
+    (Avx2_u8.inst E).max_to_value r = pure (hfoldHalf4 IntPrim.umax (0 : BitVec 8) 16 4 (xlanes 8 r)) :=
+  avx2_fold4 (by decide) 4 (by decide) IntPrim.umax (0 : BitVec 8) E.fuel (by omega) r
+/-- … which, `(IntPrim.umax, (0 : BitVec 8))` being a commutative monoid, is the fold of all 32 lanes -/
+theorem hmax_eq (f : Nat → BitVec 8) : hfoldHalf4 IntPrim.umax (0 : BitVec 8) 16 4 f = sumR IntPrim.umax (0 : BitVec 8) f 32 :=
+  hfoldHalf4_eq_sumR (umax_monoid 8) 4 f
+/-- the `FoldFaithful` record of `max_to_register` / `max_to_value` -/
+theorem maxFold (E : Env) (hfuel : 5 ≤ E.fuel) : FoldFaithful 32 (xlanes 8) (uintSpec 8).cmpMax (hfoldHalf4 IntPrim.umax (0 : BitVec 8) 16 4)
+    (Avx2_u8.inst E).max_to_register (Avx2_u8.inst E).max_to_value :=
+  foldFaithful_of (C13X86.Avx2_u8.max E) _ _ _ rfl (max_to_value E hfuel)
+/-- `Avx2_u8.min_to_value`: halves combined lane-wise, then the 4-accumulator scalar loop -/
+theorem min_to_value (E : Env) (hfuel : 5 ≤ E.fuel) (r : BitVec 256) :
+    (Avx2_u8.inst E).min_to_value r = pure (hfoldHalf4 IntPrim.umin (BitVec.allOnes 8) 16 4 (xlanes 8 r)) :=
+  avx2_fold4 (by decide) 4 (by decide) IntPrim.umin (BitVec.allOnes 8) E.fuel (by omega) r
+/-- … which, `(IntPrim.umin, (BitVec.allOnes 8))` being a commutative monoid, is the fold of all 32 lanes -/
+theorem hmin_eq (f : Nat → BitVec 8) : hfoldHalf4 IntPrim.umin (BitVec.allOnes 8) 16 4 f = sumR IntPrim.umin (BitVec.allOnes 8) f 32 :=
+  hfoldHalf4_eq_sumR (umin_monoid 8) 4 f
+/-- the `FoldFaithful` record of `min_to_register` / `min_to_value` -/
+theorem minFold (E : Env) (hfuel : 5 ≤ E.fuel) : FoldFaithful 32 (xlanes 8) (uintSpec 8).cmpMin (hfoldHalf4 IntPrim.umin (BitVec.allOnes 8) 16 4)
+    (Avx2_u8.inst E).min_to_register (Avx2_u8.inst E).min_to_value :=
+  foldFaithful_of (C13X86.Avx2_u8.min E) _ _ _ rfl (min_to_value E hfuel)
+end Avx2_u8
+
+namespace Avx2_u16
+/-- `Avx2_u16.sum_to_value`: halves combined lane-wise, then the 4-accumulator scalar loop -/
+theorem sum_to_value (E : Env) (hfuel : 3 ≤ E.fuel) (r : BitVec 256) :
+    (Avx2_u16.inst E).sum_to_value r = pure (hfoldHalf4 (· + ·) (0 : BitVec 16) 8 2 (xlanes 16 r)) :=
+  avx2_fold4 (by decide) 2 (by decide) (· + ·) (0 : BitVec 16) E.fuel (by omega) r
+/-- … which, `((· + ·), (0 : BitVec 16))` being a commutative monoid, is the fold of all 16 lanes -/
+theorem hsum_eq (f : Nat → BitVec 16) : hfoldHalf4 (· + ·) (0 : BitVec 16) 8 2 f = sumR (· + ·) (0 : BitVec 16) f 16 :=
+  hfoldHalf4_eq_sumR (add_monoid 16) 2 f
+/-- the `FoldFaithful` record of `sum_to_register` / `sum_to_value` -/
+theorem sumFold (E : Env) (hfuel : 3 ≤ E.fuel) : FoldFaithful 16 (xlanes 16) (uintSpec 16).add (hfoldHalf4 (· + ·) (0 : BitVec 16) 8 2)
+    (Avx2_u16.inst E).sum_to_register (Avx2_u16.inst E).sum_to_value :=
+  foldFaithful_of (C13X86.Avx2_u16.add E) _ _ _ rfl (sum_to_value E hfuel)
+/-- `Avx2_u16.max_to_value`: halves combined lane-wise, then the 4-accumulator scalar loop -/
+theorem max_to_value (E : Env) (hfuel : 3 ≤ E.fuel) (r : BitVec 256) :
+    (Avx2_u16.inst E).max_to_value r = pure (hfoldHalf4 IntPrim.umax (0 : BitVec 16) 8 2 (xlanes 16 r)) :=
+  avx2_fold4 (by decide) 2 (by decide) IntPrim.umax (0 : BitVec 16) E.fuel (by omega) r
+/-- … which, `(IntPrim.umax, (0 : BitVec 16))` being a commutative monoid, is the fold of all 16 lanes -/
+theorem hmax_eq (f : Nat → BitVec 16) : hfoldHalf4 IntPrim.umax (0 : BitVec 16) 8 2 f = sumR IntPrim.umax (0 : BitVec 16) f 16 :=
+  hfoldHalf4_eq_sumR (umax_monoid 16) 2 f
+/-- the `FoldFaithful` record of `max_to_register` / `max_to_value` -/
+theorem maxFold (E : Env) (hfuel : 3 ≤ E.fuel) : FoldFaithful 16 (xlanes 16) (uintSpec 16).cmpMax (hfoldHalf4 IntPrim.umax (0 : BitVec 16) 8 2)
+    (Avx2_u16.inst E).max_to_register (Avx2_u16.inst E).max_to_value :=
+  foldFaithful_of (C13X86.Avx2_u16.max E) _ _ _ rfl (max_to_value E hfuel)
+/-- `Avx2_u16.min_to_value`: halves combined lane-wise, then the 4-accumulator scalar loop -/
+theorem min_to_value (E : Env) (hfuel : 3 ≤ E.fuel) (r : BitVec 256) :
+    (Avx2_u16.inst E).min_to_value r = pure (hfoldHalf4 IntPrim.umin (BitVec.allOnes 16) 8 2 (xlanes 16 r)) :=
+  avx2_fold4 (by decide) 2 (by decide) IntPrim.umin (BitVec.allOnes 16) E.fuel (by omega) r
+/-- … which, `(IntPrim.umin, (BitVec.allOnes 16))` being a commutative monoid, is the fold of all 16 lanes -/
+theorem hmin_eq (f : Nat → BitVec 16) : hfoldHalf4 IntPrim.umin (BitVec.allOnes 16) 8 2 f = sumR IntPrim.umin (BitVec.allOnes 16) f 16 :=
+  hfoldHalf4_eq_sumR (umin_monoid 16) 2 f
+/-- the `FoldFaithful` record of `min_to_register` / `min_to_value` -/
+theorem minFold (E : Env) (hfuel : 3 ≤ E.fuel) : FoldFaithful 16 (xlanes 16) (uintSpec 16).cmpMin (hfoldHalf4 IntPrim.umin (BitVec.allOnes 16) 8 2)
+    (Avx2_u16.inst E).min_to_register (Avx2_u16.inst E).min_to_value :=
+  foldFaithful_of (C13X86.Avx2_u16.min E) _ _ _ rfl (min_to_value E hfuel)
+end Avx2_u16
+
+namespace Avx2_u32
+/-- `Avx2_u32.sum_to_value`: halves combined lane-wise, then `(g0 ⊕ g1) ⊕ (g2 ⊕ g3)` -/
+theorem sum_to_value (E : Env) (r : BitVec 256) :
+    (Avx2_u32.inst E).sum_to_value r = pure (hfoldHalfQ (· + ·) (xlanes 32 r)) :=
+  congrArg pure (avx2_foldQ (· + ·) r)
+/-- … which, `((· + ·), (0 : BitVec 32))` being a commutative monoid, is the fold of all 8 lanes -/
+theorem hsum_eq (f : Nat → BitVec 32) : hfoldHalfQ (· + ·) f = sumR (· + ·) (0 : BitVec 32) f 8 :=
+  hfoldHalfQ_eq_sumR (add_monoid 32) f
+/-- the `FoldFaithful` record of `sum_to_register` / `sum_to_value` -/
+theorem sumFold (E : Env) : FoldFaithful 8 (xlanes 32) (uintSpec 32).add (hfoldHalfQ (· + ·))
+    (Avx2_u32.inst E).sum_to_register (Avx2_u32.inst E).sum_to_value :=
+  foldFaithful_of (C13X86.Avx2_u32.add E) _ _ _ rfl (sum_to_value E)
+/-- `Avx2_u32.max_to_value`: halves combined lane-wise, then `(g0 ⊕ g1) ⊕ (g2 ⊕ g3)` -/
+theorem max_to_value (E : Env) (r : BitVec 256) :
+    (Avx2_u32.inst E).max_to_value r = pure (hfoldHalfQ IntPrim.umax (xlanes 32 r)) :=
+  congrArg pure (avx2_foldQ IntPrim.umax r)
+/-- … which, `(IntPrim.umax, (0 : BitVec 32))` being a commutative monoid, is the fold of all 8 lanes -/
+theorem hmax_eq (f : Nat → BitVec 32) : hfoldHalfQ IntPrim.umax f = sumR IntPrim.umax (0 : BitVec 32) f 8 :=
+  hfoldHalfQ_eq_sumR (umax_monoid 32) f
+/-- the `FoldFaithful` record of `max_to_register` / `max_to_value` -/
+theorem maxFold (E : Env) : FoldFaithful 8 (xlanes 32) (uintSpec 32).cmpMax (hfoldHalfQ IntPrim.umax)
+    (Avx2_u32.inst E).max_to_register (Avx2_u32.inst E).max_to_value :=
+  foldFaithful_of (C13X86.Avx2_u32.max E) _ _ _ rfl (max_to_value E)
+/-- `Avx2_u32.min_to_value`: halves combined lane-wise, then `(g0 ⊕ g1) ⊕ (g2 ⊕ g3)` -/
+theorem min_to_value (E : Env) (r : BitVec 256) :
+    (Avx2_u32.inst E).min_to_value r = pure (hfoldHalfQ IntPrim.umin (xlanes 32 r)) :=
+  congrArg pure (avx2_foldQ IntPrim.umin r)
+/-- … which, `(IntPrim.umin, (BitVec.allOnes 32))` being a commutative monoid, is the fold of all 8 lanes -/
+theorem hmin_eq (f : Nat → BitVec 32) : hfoldHalfQ IntPrim.umin f = sumR IntPrim.umin (BitVec.allOnes 32) f 8 :=
+  hfoldHalfQ_eq_sumR (umin_monoid 32) f
+/-- the `FoldFaithful` record of `min_to_register` / `min_to_value` -/
+theorem minFold (E : Env) : FoldFaithful 8 (xlanes 32) (uintSpec 32).cmpMin (hfoldHalfQ IntPrim.umin)
+    (Avx2_u32.inst E).min_to_register (Avx2_u32.inst E).min_to_value :=
+  foldFaithful_of (C13X86.Avx2_u32.min E) _ _ _ rfl (min_to_value E)
+end Avx2_u32
+
+namespace Avx2_u64
+/-- `Avx2_u64.sum_to_value`: halves combined lane-wise, then `g0 ⊕ g1` -/
+theorem sum_to_value (E : Env) (r : BitVec 256) :
+    (Avx2_u64.inst E).sum_to_value r = pure (hfoldHalfD (· + ·) (xlanes 64 r)) :=
+  congrArg pure (avx2_foldD (· + ·) r)
+/-- … which, `((· + ·), (0 : BitVec 64))` being a commutative monoid, is the fold of all 4 lanes -/
+theorem hsum_eq (f : Nat → BitVec 64) : hfoldHalfD (· + ·) f = sumR (· + ·) (0 : BitVec 64) f 4 :=
+  hfoldHalfD_eq_sumR (add_monoid 64) f
+/-- the `FoldFaithful` record of `sum_to_register` / `sum_to_value` -/
+theorem sumFold (E : Env) : FoldFaithful 4 (xlanes 64) (uintSpec 64).add (hfoldHalfD (· + ·))
+    (Avx2_u64.inst E).sum_to_register (Avx2_u64.inst E).sum_to_value :=
+  foldFaithful_of (C13X86.Avx2_u64.add E) _ _ _ rfl (sum_to_value E)
+/-- `Avx2_u64.max_to_value`: halves combined with `cmpgt_epi64` + `blendv_epi8`, then the scalar combine -/
+theorem max_to_value (E : Env) (r : BitVec 256) :
+    (Avx2_u64.inst E).max_to_value r = pure (hfoldHalfD IntPrim.umax (xlanes 64 r)) :=
+  congrArg pure (avx2_umaxD r)
+/-- … which, `(IntPrim.umax, (0 : BitVec 64))` being a commutative monoid, is the fold of all 4 lanes -/
+theorem hmax_eq (f : Nat → BitVec 64) : hfoldHalfD IntPrim.umax f = sumR IntPrim.umax (0 : BitVec 64) f 4 :=
+  hfoldHalfD_eq_sumR (umax_monoid 64) f
+/-- the `FoldFaithful` record of `max_to_register` / `max_to_value` -/
+theorem maxFold (E : Env) : FoldFaithful 4 (xlanes 64) (uintSpec 64).cmpMax (hfoldHalfD IntPrim.umax)
+    (Avx2_u64.inst E).max_to_register (Avx2_u64.inst E).max_to_value :=
+  foldFaithful_of (C13X86Hard.Avx2_u64.max E) _ _ _ rfl (max_to_value E)
+/-- `Avx2_u64.min_to_value`: halves combined with `cmpgt_epi64` + `blendv_epi8`, then the scalar combine -/
+theorem min_to_value (E : Env) (r : BitVec 256) :
+    (Avx2_u64.inst E).min_to_value r = pure (hfoldHalfD IntPrim.umin (xlanes 64 r)) :=
+  congrArg pure (avx2_uminD r)
+/-- … which, `(IntPrim.umin, (BitVec.allOnes 64))` being a commutative monoid, is the fold of all 4 lanes -/
+theorem hmin_eq (f : Nat → BitVec 64) : hfoldHalfD IntPrim.umin f = sumR IntPrim.umin (BitVec.allOnes 64) f 4 :=
+  hfoldHalfD_eq_sumR (umin_monoid 64) f
+/-- the `FoldFaithful` record of `min_to_register` / `min_to_value` -/
+theorem minFold (E : Env) : FoldFaithful 4 (xlanes 64) (uintSpec 64).cmpMin (hfoldHalfD IntPrim.umin)
+    (Avx2_u64.inst E).min_to_register (Avx2_u64.inst E).min_to_value :=
+  foldFaithful_of (C13X86Hard.Avx2_u64.min E) _ _ _ rfl (min_to_value E)
+end Avx2_u64
+
+namespace Avx512_i8
+/-- `Avx512_i8.sum_to_value`: 256-bit halves combined, then the AVX2 fold -/
+theorem sum_to_value (E : Env) (hfuel : 5 ≤ E.fuel) (r : BitVec 512) :
+    (Avx512_i8.inst E).sum_to_value r = pure (hfoldHalf512 (· + ·) (0 : BitVec 8) 16 4 (xlanes 8 r)) :=
+  avx512_fold4 E (by decide) 4 (by decide) (by decide) (· + ·) (0 : BitVec 8) E.fuel (by omega) _ (shuffle_1032 E) r
+/-- … which, `((· + ·), (0 : BitVec 8))` being a commutative monoid, is the fold of all 64 lanes -/
+theorem hsum_eq (f : Nat → BitVec 8) : hfoldHalf512 (· + ·) (0 : BitVec 8) 16 4 f = sumR (· + ·) (0 : BitVec 8) f 64 :=
+  hfoldHalf512_eq_sumR (add_monoid 8) 4 f
+/-- the `FoldFaithful` record of `sum_to_register` / `sum_to_value` -/
+theorem sumFold (E : Env) (hfuel : 5 ≤ E.fuel) : FoldFaithful 64 (xlanes 8) (sintSpec 8).add (hfoldHalf512 (· + ·) (0 : BitVec 8) 16 4)
+    (Avx512_i8.inst E).sum_to_register (Avx512_i8.inst E).sum_to_value :=
+  foldFaithful_of (C13X86.Avx512_i8.add E) _ _ _ rfl (sum_to_value E hfuel)
+/-- `Avx512_i8.max_to_value`: 256-bit halves combined, then the AVX2 fold -/
+theorem max_to_value (E : Env) (hfuel : 5 ≤ E.fuel) (r : BitVec 512) :
+    (Avx512_i8.inst E).max_to_value r = pure (hfoldHalf512 IntPrim.smax (BitVec.intMin 8) 16 4 (xlanes 8 r)) :=
+  avx512_fold4 E (by decide) 4 (by decide) (by decide) IntPrim.smax (BitVec.intMin 8) E.fuel (by omega) _ (shuffle_1032 E) r
+/-- … which, `(IntPrim.smax, (BitVec.intMin 8))` being a commutative monoid, is the fold of all 64 lanes -/
+theorem hmax_eq (f : Nat → BitVec 8) : hfoldHalf512 IntPrim.smax (BitVec.intMin 8) 16 4 f = sumR IntPrim.smax (BitVec.intMin 8) f 64 :=
+  hfoldHalf512_eq_sumR (smax_monoid (by decide : 0 < 8)) 4 f
+/-- the `FoldFaithful` record of `max_to_register` / `max_to_value` -/
+theorem maxFold (E : Env) (hfuel : 5 ≤ E.fuel) : FoldFaithful 64 (xlanes 8) (sintSpec 8).cmpMax (hfoldHalf512 IntPrim.smax (BitVec.intMin 8) 16 4)
+    (Avx512_i8.inst E).max_to_register (Avx512_i8.inst E).max_to_value :=
+  foldFaithful_of (C13X86.Avx512_i8.max E) _ _ _ rfl (max_to_value E hfuel)
+/-- `Avx512_i8.min_to_value`: 256-bit halves combined, then the AVX2 fold -/
+theorem min_to_value (E : Env) (hfuel : 5 ≤ E.fuel) (r : BitVec 512) :
+    (Avx512_i8.inst E).min_to_value r = pure (hfoldHalf512 IntPrim.smin (BitVec.intMax 8) 16 4 (xlanes 8 r)) :=
+  avx512_fold4 E (by decide) 4 (by decide) (by decide) IntPrim.smin (BitVec.intMax 8) E.fuel (by omega) _ (shuffle_1032 E) r
+/-- … which, `(IntPrim.smin, (BitVec.intMax 8))` being a commutative monoid, is the fold of all 64 lanes -/
+theorem hmin_eq (f : Nat → BitVec 8) : hfoldHalf512 IntPrim.smin (BitVec.intMax 8) 16 4 f = sumR IntPrim.smin (BitVec.intMax 8) f 64 :=
+  hfoldHalf512_eq_sumR (smin_monoid (by decide : 0 < 8)) 4 f
+/-- the `FoldFaithful` record of `min_to_register` / `min_to_value` -/
+theorem minFold (E : Env) (hfuel : 5 ≤ E.fuel) : FoldFaithful 64 (xlanes 8) (sintSpec 8).cmpMin (hfoldHalf512 IntPrim.smin (BitVec.intMax 8) 16 4)
+    (Avx512_i8.inst E).min_to_register (Avx512_i8.inst E).min_to_value :=
+  foldFaithful_of (C13X86.Avx512_i8.min E) _ _ _ rfl (min_to_value E hfuel)
+end Avx512_i8
+
+namespace Avx512_i16
+/-- `Avx512_i16.sum_to_value`: 256-bit halves combined, then the AVX2 fold -/
+theorem sum_to_value (E : Env) (hfuel : 3 ≤ E.fuel) (r : BitVec 512) :
+    (Avx512_i16.inst E).sum_to_value r = pure (hfoldHalf512 (· + ·) (0 : BitVec 16) 8 2 (xlanes 16 r)) :=
+  avx512_fold4 E (by decide) 2 (by decide) (by decide) (· + ·) (0 : BitVec 16) E.fuel (by omega) _ (shuffle_1032 E) r
+/-- … which, `((· + ·), (0 : BitVec 16))` being a commutative monoid, is the fold of all 32 lanes -/
+theorem hsum_eq (f : Nat → BitVec 16) : hfoldHalf512 (· + ·) (0 : BitVec 16) 8 2 f = sumR (· + ·) (0 : BitVec 16) f 32 :=
+  hfoldHalf512_eq_sumR (add_monoid 16) 2 f
+/-- the `FoldFaithful` record of `sum_to_register` / `sum_to_value` -/
+theorem sumFold (E : Env) (hfuel : 3 ≤ E.fuel) : FoldFaithful 32 (xlanes 16) (sintSpec 16).add (hfoldHalf512 (· + ·) (0 : BitVec 16) 8 2)
+    (Avx512_i16.inst E).sum_to_register (Avx512_i16.inst E).sum_to_value :=
+  foldFaithful_of (C13X86.Avx512_i16.add E) _ _ _ rfl (sum_to_value E hfuel)
+/-- `Avx512_i16.max_to_value`: 256-bit halves combined, then the AVX2 fold -/
+theorem max_to_value (E : Env) (hfuel : 3 ≤ E.fuel) (r : BitVec 512) :
+    (Avx512_i16.inst E).max_to_value r = pure (hfoldHalf512 IntPrim.smax (BitVec.intMin 16) 8 2 (xlanes 16 r)) :=
+  avx512_fold4 E (by decide) 2 (by decide) (by decide) IntPrim.smax (BitVec.intMin 16) E.fuel (by omega) _ (shuffle_1032 E) r
+/-- … which, `(IntPrim.smax, (BitVec.intMin 16))` being a commutative monoid, is the fold of all 32 lanes -/
+theorem hmax_eq (f : Nat → BitVec 16) : hfoldHalf512 IntPrim.smax (BitVec.intMin 16) 8 2 f = sumR IntPrim.smax (BitVec.intMin 16) f 32 :=
+  hfoldHalf512_eq_sumR (smax_monoid (by decide : 0 < 16)) 2 f
+/-- the `FoldFaithful` record of `max_to_register` / `max_to_value` -/
+theorem maxFold (E : Env) (hfuel : 3 ≤ E.fuel) : FoldFaithful 32 (xlanes 16) (sintSpec 16).cmpMax (hfoldHalf512 IntPrim.smax (BitVec.intMin 16) 8 2)
+    (Avx512_i16.inst E).max_to_register (Avx512_i16.inst E).max_to_value :=
+  foldFaithful_of (C13X86.Avx512_i16.max E) _ _ _ rfl (max_to_value E hfuel)
+/-- `Avx512_i16.min_to_value`: 256-bit halves combined, then the AVX2 fold -/
+theorem min_to_value (E : Env) (hfuel : 3 ≤ E.fuel) (r : BitVec 512) :
+    (Avx512_i16.inst E).min_to_value r = pure (hfoldHalf512 IntPrim.smin (BitVec.intMax 16) 8 2 (xlanes 16 r)) :=
+  avx512_fold4 E (by decide) 2 (by decide) (by decide) IntPrim.smin (BitVec.intMax 16) E.fuel (by omega) _ (shuffle_1032 E) r
+/-- … which, `(IntPrim.smin, (BitVec.intMax 16))` being a commutative monoid, is the fold of all 32 lanes -/
+theorem hmin_eq (f : Nat → BitVec 16) : hfoldHalf512 IntPrim.smin (BitVec.intMax 16) 8 2 f = sumR IntPrim.smin (BitVec.intMax 16) f 32 :=
+  hfoldHalf512_eq_sumR (smin_monoid (by decide : 0 < 16)) 2 f
+/-- the `FoldFaithful` record of `min_to_register` / `min_to_value` -/
+theorem minFold (E : Env) (hfuel : 3 ≤ E.fuel) : FoldFaithful 32 (xlanes 16) (sintSpec 16).cmpMin (hfoldHalf512 IntPrim.smin (BitVec.intMax 16) 8 2)
+    (Avx512_i16.inst E).min_to_register (Avx512_i16.inst E).min_to_value :=
+  foldFaithful_of (C13X86.Avx512_i16.min E) _ _ _ rfl (min_to_value E hfuel)
+end Avx512_i16
+
+namespace Avx512_i32
+/-- `Avx512_i32.sum_to_value`: the in-order `_mm512_reduce_*` intrinsic -/
+theorem sum_to_value (E : Env) (r : BitVec 512) :
+    (Avx512_i32.inst E).sum_to_value r = pure (X86.reduceOrdered (· + ·) (0 : BitVec 32) 16 (xlanes 32 r)) :=
+  rfl
+/-- … which, `((· + ·), (0 : BitVec 32))` being a commutative monoid, is the fold of all 16 lanes -/
+theorem hsum_eq (f : Nat → BitVec 32) : X86.reduceOrdered (· + ·) (0 : BitVec 32) 16 f = sumR (· + ·) (0 : BitVec 32) f 16 :=
+  reduceOrdered_eq_sumR (0 : BitVec 32) 16 f
+/-- the `FoldFaithful` record of `sum_to_register` / `sum_to_value` -/
+theorem sumFold (E : Env) : FoldFaithful 16 (xlanes 32) (sintSpec 32).add (X86.reduceOrdered (· + ·) (0 : BitVec 32) 16)
+    (Avx512_i32.inst E).sum_to_register (Avx512_i32.inst E).sum_to_value :=
+  foldFaithful_of (C13X86.Avx512_i32.add E) _ _ _ rfl (sum_to_value E)
+/-- `Avx512_i32.max_to_value`: the in-order `_mm512_reduce_*` intrinsic -/
+theorem max_to_value (E : Env) (r : BitVec 512) :
+    (Avx512_i32.inst E).max_to_value r = pure (X86.reduceOrdered IntPrim.smax (BitVec.intMin 32) 16 (xlanes 32 r)) :=
+  rfl
+/-- … which, `(IntPrim.smax, (BitVec.intMin 32))` being a commutative monoid, is the fold of all 16 lanes -/
+theorem hmax_eq (f : Nat → BitVec 32) : X86.reduceOrdered IntPrim.smax (BitVec.intMin 32) 16 f = sumR IntPrim.smax (BitVec.intMin 32) f 16 :=
+  reduceOrdered_eq_sumR (BitVec.intMin 32) 16 f
+/-- the `FoldFaithful` record of `max_to_register` / `max_to_value` -/
+theorem maxFold (E : Env) : FoldFaithful 16 (xlanes 32) (sintSpec 32).cmpMax (X86.reduceOrdered IntPrim.smax (BitVec.intMin 32) 16)
+    (Avx512_i32.inst E).max_to_register (Avx512_i32.inst E).max_to_value :=
+  foldFaithful_of (C13X86.Avx512_i32.max E) _ _ _ rfl (max_to_value E)
+/-- `Avx512_i32.min_to_value`: the in-order `_mm512_reduce_*` intrinsic -/
+theorem min_to_value (E : Env) (r : BitVec 512) :
+    (Avx512_i32.inst E).min_to_value r = pure (X86.reduceOrdered IntPrim.smin (BitVec.intMax 32) 16 (xlanes 32 r)) :=
+  rfl
+/-- … which, `(IntPrim.smin, (BitVec.intMax 32))` being a commutative monoid, is the fold of all 16 lanes -/
+theorem hmin_eq (f : Nat → BitVec 32) : X86.reduceOrdered IntPrim.smin (BitVec.intMax 32) 16 f = sumR IntPrim.smin (BitVec.intMax 32) f 16 :=
+  reduceOrdered_eq_sumR (BitVec.intMax 32) 16 f
+/-- the `FoldFaithful` record of `min_to_register` / `min_to_value` -/
+theorem minFold (E : Env) : FoldFaithful 16 (xlanes 32) (sintSpec 32).cmpMin (X86.reduceOrdered IntPrim.smin (BitVec.intMax 32) 16)
+    (Avx512_i32.inst E).min_to_register (Avx512_i32.inst E).min_to_value :=
+  foldFaithful_of (C13X86.Avx512_i32.min E) _ _ _ rfl (min_to_value E)
+end Avx512_i32
+
+namespace Avx512_i64
+/-- `Avx512_i64.sum_to_value`: the in-order `_mm512_reduce_*` intrinsic -/
+theorem sum_to_value (E : Env) (r : BitVec 512) :
+    (Avx512_i64.inst E).sum_to_value r = pure (X86.reduceOrdered (· + ·) (0 : BitVec 64) 8 (xlanes 64 r)) :=
+  rfl
+/-- … which, `((· + ·), (0 : BitVec 64))` being a commutative monoid, is the fold of all 8 lanes -/
+theorem hsum_eq (f : Nat → BitVec 64) : X86.reduceOrdered (· + ·) (0 : BitVec 64) 8 f = sumR (· + ·) (0 : BitVec 64) f 8 :=
+  reduceOrdered_eq_sumR (0 : BitVec 64) 8 f
+/-- the `FoldFaithful` record of `sum_to_register` / `sum_to_value` -/
+theorem sumFold (E : Env) : FoldFaithful 8 (xlanes 64) (sintSpec 64).add (X86.reduceOrdered (· + ·) (0 : BitVec 64) 8)
+    (Avx512_i64.inst E).sum_to_register (Avx512_i64.inst E).sum_to_value :=
+  foldFaithful_of (C13X86.Avx512_i64.add E) _ _ _ rfl (sum_to_value E)
+/-- `Avx512_i64.max_to_value`: the in-order `_mm512_reduce_*` intrinsic -/
+theorem max_to_value (E : Env) (r : BitVec 512) :
+    (Avx512_i64.inst E).max_to_value r = pure (X86.reduceOrdered IntPrim.smax (BitVec.intMin 64) 8 (xlanes 64 r)) :=
+  rfl
+/-- … which, `(IntPrim.smax, (BitVec.intMin 64))` being a commutative monoid, is the fold of all 8 lanes -/
+theorem hmax_eq (f : Nat → BitVec 64) : X86.reduceOrdered IntPrim.smax (BitVec.intMin 64) 8 f = sumR IntPrim.smax (BitVec.intMin 64) f 8 :=
+  reduceOrdered_eq_sumR (BitVec.intMin 64) 8 f
+/-- the `FoldFaithful` record of `max_to_register` / `max_to_value` -/
+theorem maxFold (E : Env) : FoldFaithful 8 (xlanes 64) (sintSpec 64).cmpMax (X86.reduceOrdered IntPrim.smax (BitVec.intMin 64) 8)
+    (Avx512_i64.inst E).max_to_register (Avx512_i64.inst E).max_to_value :=
+  foldFaithful_of (C13X86.Avx512_i64.max E) _ _ _ rfl (max_to_value E)
+/-- `Avx512_i64.min_to_value`: the in-order `_mm512_reduce_*` intrinsic -/
+theorem min_to_value (E : Env) (r : BitVec 512) :
+    (Avx512_i64.inst E).min_to_value r = pure (X86.reduceOrdered IntPrim.smin (BitVec.intMax 64) 8 (xlanes 64 r)) :=
+  rfl
+/-- … which, `(IntPrim.smin, (BitVec.intMax 64))` being a commutative monoid, is the fold of all 8 lanes -/
+theorem hmin_eq (f : Nat → BitVec 64) : X86.reduceOrdered IntPrim.smin (BitVec.intMax 64) 8 f = sumR IntPrim.smin (BitVec.intMax 64) f 8 :=
+  reduceOrdered_eq_sumR (BitVec.intMax 64) 8 f
+/-- the `FoldFaithful` record of `min_to_register` / `min_to_value` -/
+theorem minFold (E : Env) : FoldFaithful 8 (xlanes 64) (sintSpec 64).cmpMin (X86.reduceOrdered IntPrim.smin (BitVec.intMax 64) 8)
+    (Avx512_i64.inst E).min_to_register (Avx512_i64.inst E).min_to_value :=
+  foldFaithful_of (C13X86.Avx512_i64.min E) _ _ _ rfl (min_to_value E)
+end Avx512_i64
+
+namespace Avx512_u8
+/-- `Avx512_u8.sum_to_value`: delegates to the `i8` fold -/
+theorem sum_to_value (E : Env) (hfuel : 5 ≤ E.fuel) (r : BitVec 512) :
+    (Avx512_u8.inst E).sum_to_value r = pure (hfoldHalf512 (· + ·) (0 : BitVec 8) 16 4 (xlanes 8 r)) := by
+  have h : (Avx512_u8.inst E).sum_to_value r = ((Avx512_i8.inst E).sum_to_value r >>= fun t => pure t) := rfl
+  rw [h, Avx512_i8.sum_to_value E hfuel r]
+  rfl
+/-- … which, `((· + ·), (0 : BitVec 8))` being a commutative monoid, is the fold of all 64 lanes -/
+theorem hsum_eq (f : Nat → BitVec 8) : hfoldHalf512 (· + ·) (0 : BitVec 8) 16 4 f = sumR (· + ·) (0 : BitVec 8) f 64 :=
+  hfoldHalf512_eq_sumR (add_monoid 8) 4 f
+/-- the `FoldFaithful` record of `sum_to_register` / `sum_to_value` -/
+theorem sumFold (E : Env) (hfuel : 5 ≤ E.fuel) : FoldFaithful 64 (xlanes 8) (uintSpec 8).add (hfoldHalf512 (· + ·) (0 : BitVec 8) 16 4)
+    (Avx512_u8.inst E).sum_to_register (Avx512_u8.inst E).sum_to_value :=
+  foldFaithful_of (C13X86.Avx512_u8.add E) _ _ _ rfl (sum_to_value E hfuel)
+/-- `Avx512_u8.max_to_value`: 256-bit halves combined, then the AVX2 fold -/
+theorem max_to_value (E : Env) (hfuel : 5 ≤ E.fuel) (r : BitVec 512) :
+    (Avx512_u8.inst E).max_to_value r = pure (hfoldHalf512 IntPrim.umax (0 : BitVec 8) 16 4 (xlanes 8 r)) :=
+  avx512_fold4 E (by decide) 4 (by decide) (by decide) IntPrim.umax (0 : BitVec 8) E.fuel (by omega) _ (shuffle_1032 E) r
+/-- … which, `(IntPrim.umax, (0 : BitVec 8))` being a commutative monoid, is the fold of all 64 lanes -/
+theorem hmax_eq (f : Nat → BitVec 8) : hfoldHalf512 IntPrim.umax (0 : BitVec 8) 16 4 f = sumR IntPrim.umax (0 : BitVec 8) f 64 :=
+  hfoldHalf512_eq_sumR (umax_monoid 8) 4 f
+/-- the `FoldFaithful` record of `max_to_register` / `max_to_value` -/
+theorem maxFold (E : Env) (hfuel : 5 ≤ E.fuel) : FoldFaithful 64 (xlanes 8) (uintSpec 8).cmpMax (hfoldHalf512 IntPrim.umax (0 : BitVec 8) 16 4)
+    (Avx512_u8.inst E).max_to_register (Avx512_u8.inst E).max_to_value :=
+  foldFaithful_of (C13X86.Avx512_u8.max E) _ _ _ rfl (max_to_value E hfuel)
+/-- `Avx512_u8.min_to_value`: 256-bit halves combined, then the AVX2 fold -/
+theorem min_to_value (E : Env) (hfuel : 5 ≤ E.fuel) (r : BitVec 512) :
+    (Avx512_u8.inst E).min_to_value r = pure (hfoldHalf512 IntPrim.umin (BitVec.allOnes 8) 16 4 (xlanes 8 r)) :=
+  avx512_fold4 E (by decide) 4 (by decide) (by decide) IntPrim.umin (BitVec.allOnes 8) E.fuel (by omega) _ (shuffle_1032 E) r
+/-- … which, `(IntPrim.umin, (BitVec.allOnes 8))` being a commutative monoid, is the fold of all 64 lanes -/
+theorem hmin_eq (f : Nat → BitVec 8) : hfoldHalf512 IntPrim.umin (BitVec.allOnes 8) 16 4 f = sumR IntPrim.umin (BitVec.allOnes 8) f 64 :=
+  hfoldHalf512_eq_sumR (umin_monoid 8) 4 f
+/-- the `FoldFaithful` record of `min_to_register` / `min_to_value` -/
+theorem minFold (E : Env) (hfuel : 5 ≤ E.fuel) : FoldFaithful 64 (xlanes 8) (uintSpec 8).cmpMin (hfoldHalf512 IntPrim.umin (BitVec.allOnes 8) 16 4)
+    (Avx512_u8.inst E).min_to_register (Avx512_u8.inst E).min_to_value :=
+  foldFaithful_of (C13X86.Avx512_u8.min E) _ _ _ rfl (min_to_value E hfuel)
+end Avx512_u8
+
+namespace Avx512_u16
+/-- `Avx512_u16.sum_to_value`: delegates to the `i16` fold -/
+theorem sum_to_value (E : Env) (hfuel : 3 ≤ E.fuel) (r : BitVec 512) :
+    (Avx512_u16.inst E).sum_to_value r = pure (hfoldHalf512 (· + ·) (0 : BitVec 16) 8 2 (xlanes 16 r)) := by
+  have h : (Avx512_u16.inst E).sum_to_value r = ((Avx512_i16.inst E).sum_to_value r >>= fun t => pure t) := rfl
+  rw [h, Avx512_i16.sum_to_value E hfuel r]
+  rfl
+/-- … which, `((· + ·), (0 : BitVec 16))` being a commutative monoid, is the fold of all 32 lanes -/
+theorem hsum_eq (f : Nat → BitVec 16) : hfoldHalf512 (· + ·) (0 : BitVec 16) 8 2 f = sumR (· + ·) (0 : BitVec 16) f 32 :=
+  hfoldHalf512_eq_sumR (add_monoid 16) 2 f
+/-- the `FoldFaithful` record of `sum_to_register` / `sum_to_value` -/
+theorem sumFold (E : Env) (hfuel : 3 ≤ E.fuel) : FoldFaithful 32 (xlanes 16) (uintSpec 16).add (hfoldHalf512 (· + ·) (0 : BitVec 16) 8 2)
+    (Avx512_u16.inst E).sum_to_register (Avx512_u16.inst E).sum_to_value :=
+  foldFaithful_of (C13X86.Avx512_u16.add E) _ _ _ rfl (sum_to_value E hfuel)
+/-- `Avx512_u16.max_to_value`: 256-bit halves combined, then the AVX2 fold -/
+theorem max_to_value (E : Env) (hfuel : 3 ≤ E.fuel) (r : BitVec 512) :
+    (Avx512_u16.inst E).max_to_value r = pure (hfoldHalf512 IntPrim.umax (0 : BitVec 16) 8 2 (xlanes 16 r)) :=
+  avx512_fold4 E (by decide) 2 (by decide) (by decide) IntPrim.umax (0 : BitVec 16) E.fuel (by omega) _ (shuffle_1032 E) r
+/-- … which, `(IntPrim.umax, (0 : BitVec 16))` being a commutative monoid, is the fold of all 32 lanes -/
+theorem hmax_eq (f : Nat → BitVec 16) : hfoldHalf512 IntPrim.umax (0 : BitVec 16) 8 2 f = sumR IntPrim.umax (0 : BitVec 16) f 32 :=
+  hfoldHalf512_eq_sumR (umax_monoid 16) 2 f
+/-- the `FoldFaithful` record of `max_to_register` / `max_to_value` -/
+theorem maxFold (E : Env) (hfuel : 3 ≤ E.fuel) : FoldFaithful 32 (xlanes 16) (uintSpec 16).cmpMax (hfoldHalf512 IntPrim.umax (0 : BitVec 16) 8 2)
+    (Avx512_u16.inst E).max_to_register (Avx512_u16.inst E).max_to_value :=
+  foldFaithful_of (C13X86.Avx512_u16.max E) _ _ _ rfl (max_to_value E hfuel)
+/-- `Avx512_u16.min_to_value`: 256-bit halves combined, then the AVX2 fold -/
+theorem min_to_value (E : Env) (hfuel : 3 ≤ E.fuel) (r : BitVec 512) :
+    (Avx512_u16.inst E).min_to_value r = pure (hfoldHalf512 IntPrim.umin (BitVec.allOnes 16) 8 2 (xlanes 16 r)) :=
+  avx512_fold4 E (by decide) 2 (by decide) (by decide) IntPrim.umin (BitVec.allOnes 16) E.fuel (by omega) _ (shuffle_1032 E) r
+/-- … which, `(IntPrim.umin, (BitVec.allOnes 16))` being a commutative monoid, is the fold of all 32 lanes -/
+theorem hmin_eq (f : Nat → BitVec 16) : hfoldHalf512 IntPrim.umin (BitVec.allOnes 16) 8 2 f = sumR IntPrim.umin (BitVec.allOnes 16) f 32 :=
+  hfoldHalf512_eq_sumR (umin_monoid 16) 2 f
+/-- the `FoldFaithful` record of `min_to_register` / `min_to_value` -/
+theorem minFold (E : Env) (hfuel : 3 ≤ E.fuel) : FoldFaithful 32 (xlanes 16) (uintSpec 16).cmpMin (hfoldHalf512 IntPrim.umin (BitVec.allOnes 16) 8 2)
+    (Avx512_u16.inst E).min_to_register (Avx512_u16.inst E).min_to_value :=
+  foldFaithful_of (C13X86.Avx512_u16.min E) _ _ _ rfl (min_to_value E hfuel)
+end Avx512_u16
+
+namespace Avx512_u32
+/-- `Avx512_u32.sum_to_value`: the in-order `_mm512_reduce_*` intrinsic -/
+theorem sum_to_value (E : Env) (r : BitVec 512) :
+    (Avx512_u32.inst E).sum_to_value r = pure (X86.reduceOrdered (· + ·) (0 : BitVec 32) 16 (xlanes 32 r)) :=
+  rfl
+/-- … which, `((· + ·), (0 : BitVec 32))` being a commutative monoid, is the fold of all 16 lanes -/
+theorem hsum_eq (f : Nat → BitVec 32) : X86.reduceOrdered (· + ·) (0 : BitVec 32) 16 f = sumR (· + ·) (0 : BitVec 32) f 16 :=
+  reduceOrdered_eq_sumR (0 : BitVec 32) 16 f
+/-- the `FoldFaithful` record of `sum_to_register` / `sum_to_value` -/
+theorem sumFold (E : Env) : FoldFaithful 16 (xlanes 32) (uintSpec 32).add (X86.reduceOrdered (· + ·) (0 : BitVec 32) 16)
+    (Avx512_u32.inst E).sum_to_register (Avx512_u32.inst E).sum_to_value :=
+  foldFaithful_of (C13X86.Avx512_u32.add E) _ _ _ rfl (sum_to_value E)
+/-- `Avx512_u32.max_to_value`: the in-order `_mm512_reduce_*` intrinsic -/
+theorem max_to_value (E : Env) (r : BitVec 512) :
+    (Avx512_u32.inst E).max_to_value r = pure (X86.reduceOrdered IntPrim.umax (0 : BitVec 32) 16 (xlanes 32 r)) :=
+  rfl
+/-- … which, `(IntPrim.umax, (0 : BitVec 32))` being a commutative monoid, is the fold of all 16 lanes -/
+theorem hmax_eq (f : Nat → BitVec 32) : X86.reduceOrdered IntPrim.umax (0 : BitVec 32) 16 f = sumR IntPrim.umax (0 : BitVec 32) f 16 :=
+  reduceOrdered_eq_sumR (0 : BitVec 32) 16 f
+/-- the `FoldFaithful` record of `max_to_register` / `max_to_value` -/
+theorem maxFold (E : Env) : FoldFaithful 16 (xlanes 32) (uintSpec 32).cmpMax (X86.reduceOrdered IntPrim.umax (0 : BitVec 32) 16)
+    (Avx512_u32.inst E).max_to_register (Avx512_u32.inst E).max_to_value :=
+  foldFaithful_of (C13X86.Avx512_u32.max E) _ _ _ rfl (max_to_value E)
+/-- `Avx512_u32.min_to_value`: the in-order `_mm512_reduce_*` intrinsic -/
+theorem min_to_value (E : Env) (r : BitVec 512) :
+    (Avx512_u32.inst E).min_to_value r = pure (X86.reduceOrdered IntPrim.umin (BitVec.allOnes 32) 16 (xlanes 32 r)) :=
+  rfl
+/-- … which, `(IntPrim.umin, (BitVec.allOnes 32))` being a commutative monoid, is the fold of all 16 lanes -/
+theorem hmin_eq (f : Nat → BitVec 32) : X86.reduceOrdered IntPrim.umin (BitVec.allOnes 32) 16 f = sumR IntPrim.umin (BitVec.allOnes 32) f 16 :=
+  reduceOrdered_eq_sumR (BitVec.allOnes 32) 16 f
+/-- the `FoldFaithful` record of `min_to_register` / `min_to_value` -/
+theorem minFold (E : Env) : FoldFaithful 16 (xlanes 32) (uintSpec 32).cmpMin (X86.reduceOrdered IntPrim.umin (BitVec.allOnes 32) 16)
+    (Avx512_u32.inst E).min_to_register (Avx512_u32.inst E).min_to_value :=
+  foldFaithful_of (C13X86.Avx512_u32.min E) _ _ _ rfl (min_to_value E)
+end Avx512_u32
+
+namespace Avx512_u64
+/-- `Avx512_u64.sum_to_value`: the in-order `_mm512_reduce_*` intrinsic -/
+theorem sum_to_value (E : Env) (r : BitVec 512) :
+    (Avx512_u64.inst E).sum_to_value r = pure (X86.reduceOrdered (· + ·) (0 : BitVec 64) 8 (xlanes 64 r)) :=
+  rfl
+/-- … which, `((· + ·), (0 : BitVec 64))` being a commutative monoid, is the fold of all 8 lanes -/
+theorem hsum_eq (f : Nat → BitVec 64) : X86.reduceOrdered (· + ·) (0 : BitVec 64) 8 f = sumR (· + ·) (0 : BitVec 64) f 8 :=
+  reduceOrdered_eq_sumR (0 : BitVec 64) 8 f
+/-- the `FoldFaithful` record of `sum_to_register` / `sum_to_value` -/
+theorem sumFold (E : Env) : FoldFaithful 8 (xlanes 64) (uintSpec 64).add (X86.reduceOrdered (· + ·) (0 : BitVec 64) 8)
+    (Avx512_u64.inst E).sum_to_register (Avx512_u64.inst E).sum_to_value :=
+  foldFaithful_of (C13X86.Avx512_u64.add E) _ _ _ rfl (sum_to_value E)
+/-- `Avx512_u64.max_to_value`: the in-order `_mm512_reduce_*` intrinsic -/
+theorem max_to_value (E : Env) (r : BitVec 512) :
+    (Avx512_u64.inst E).max_to_value r = pure (X86.reduceOrdered IntPrim.umax (0 : BitVec 64) 8 (xlanes 64 r)) :=
+  rfl
+/-- … which, `(IntPrim.umax, (0 : BitVec 64))` being a commutative monoid, is the fold of all 8 lanes -/
+theorem hmax_eq (f : Nat → BitVec 64) : X86.reduceOrdered IntPrim.umax (0 : BitVec 64) 8 f = sumR IntPrim.umax (0 : BitVec 64) f 8 :=
+  reduceOrdered_eq_sumR (0 : BitVec 64) 8 f
+/-- the `FoldFaithful` record of `max_to_register` / `max_to_value` -/
+theorem maxFold (E : Env) : FoldFaithful 8 (xlanes 64) (uintSpec 64).cmpMax (X86.reduceOrdered IntPrim.umax (0 : BitVec 64) 8)
+    (Avx512_u64.inst E).max_to_register (Avx512_u64.inst E).max_to_value :=
+  foldFaithful_of (C13X86.Avx512_u64.max E) _ _ _ rfl (max_to_value E)
+/-- `Avx512_u64.min_to_value`: the in-order `_mm512_reduce_*` intrinsic -/
+theorem min_to_value (E : Env) (r : BitVec 512) :
+    (Avx512_u64.inst E).min_to_value r = pure (X86.reduceOrdered IntPrim.umin (BitVec.allOnes 64) 8 (xlanes 64 r)) :=
+  rfl
+/-- … which, `(IntPrim.umin, (BitVec.allOnes 64))` being a commutative monoid, is the fold of all 8 lanes -/
+theorem hmin_eq (f : Nat → BitVec 64) : X86.reduceOrdered IntPrim.umin (BitVec.allOnes 64) 8 f = sumR IntPrim.umin (BitVec.allOnes 64) f 8 :=
+  reduceOrdered_eq_sumR (BitVec.allOnes 64) 8 f
+/-- the `FoldFaithful` record of `min_to_register` / `min_to_value` -/
+theorem minFold (E : Env) : FoldFaithful 8 (xlanes 64) (uintSpec 64).cmpMin (X86.reduceOrdered IntPrim.umin (BitVec.allOnes 64) 8)
+    (Avx512_u64.inst E).min_to_register (Avx512_u64.inst E).min_to_value :=
+  foldFaithful_of (C13X86.Avx512_u64.min E) _ _ _ rfl (min_to_value E)
+end Avx512_u64
+
 end Cfavml.Thm.C13X86Hard
